@@ -129,7 +129,7 @@ def load_known():
 
 
 def write_replay(pid, payload):
-    d = os.path.join(ROOT, 'replays')
+    d = os.environ.get('VERIF_REPLAY_DIR') or os.path.join(ROOT, 'replays')
     os.makedirs(d, exist_ok=True)
     blob = json.dumps(payload, indent=1, sort_keys=True, default=repr)
     h = hashlib.sha1(blob.encode()).hexdigest()[:10]
@@ -139,7 +139,7 @@ def write_replay(pid, payload):
 
 
 def write_evidence(pid, ev):
-    d = os.path.join(ROOT, 'evidence')
+    d = os.environ.get('VERIF_EVIDENCE_DIR') or os.path.join(ROOT, 'evidence')
     os.makedirs(d, exist_ok=True)
     open(os.path.join(d, pid + '.json'), 'w').write(json.dumps(ev, indent=1, default=repr) + '\n')
 
